@@ -1704,8 +1704,9 @@ func ValueEqual(a *VMValue, b *VMValue, autoConvert bool) bool {
 	return valueEqualOnPath(a, b, autoConvert, map[[2]any]bool{})
 }
 
-// valueEqualOnPath: onPath 记录当前比较路径上的容器对，再次遇到同一对说明出现了循环引用，
-// 此时视为相等(其余部分已经在比较中)，避免无限递归
+// valueEqualOnPath: onPath 记录已经开始比较的容器对。再次遇到同一对时视为相等: 要么出现了循环引用
+// (其余部分已经在比较中)，要么这一对已经比较过且相等(任何一处不等都会让整个比较直接返回 false，
+// 所以留在集合里的只会是相等的对)。这样每一对容器只展开一次，[a,a] 层层嵌套的值不会指数级地重复比较
 func valueEqualOnPath(a *VMValue, b *VMValue, autoConvert bool, onPath map[[2]any]bool) bool {
 	if a == b {
 		return true
@@ -1727,7 +1728,6 @@ func valueEqualOnPath(a *VMValue, b *VMValue, autoConvert bool, onPath map[[2]an
 				return true
 			}
 			onPath[pair] = true
-			defer delete(onPath, pair)
 			for index, i := range arr1.List {
 				if !valueEqualOnPath(i, arr2.List[index], autoConvert, onPath) {
 					return false
@@ -1745,7 +1745,6 @@ func valueEqualOnPath(a *VMValue, b *VMValue, autoConvert bool, onPath map[[2]an
 				return true
 			}
 			onPath[pair] = true
-			defer delete(onPath, pair)
 			isSame := true
 			d1.Dict.Range(func(key string, value *VMValue) bool {
 				isEqual := valueEqualOnPath(value, d2.Dict.MustLoad(key), autoConvert, onPath)
